@@ -45,12 +45,12 @@ type Run struct {
 	// applied to a scratch copy and re-analysed. It never influences the exit code.
 	Sensitivity any
 	// Quiet suppresses report files and stdout (used for scratch-copy runs).
-	Quiet bool
-	Explain  string
-	Assume   []string
+	Quiet     bool
+	Explain   string
+	Assume    []string
 	FuncsSeen map[string]bool
 	CallSites int
-	start    time.Time
+	start     time.Time
 }
 
 // processStart is taken when the analyser starts, so that wall_s includes loading and
@@ -297,25 +297,26 @@ func (r *Run) Finish() int {
 		"seed":        seed,
 		"level":       "other",
 		"coverage": map[string]any{
-			"explanation":         r.Explain,
-			"rule":                "one obligation per (rule, construct) found in /repo's current source; an obligation is non-trivial unless it was satisfied by a named exception row; distinct = distinct (rule, construct) keys",
-			"obligations":         len(r.Obls),
-			"discharged":          discharged,
-			"evaluations":         len(r.Obls),
-			"distinct_nontrivial": len(distinct),
-			"samples":             samples,
+			"explanation":          r.Explain,
+			"rule":                 "one obligation per (rule, construct) found in /repo's current source; an obligation is non-trivial unless it was satisfied by a named exception row; distinct = distinct (rule, construct) keys",
+			"obligations":          len(r.Obls),
+			"discharged":           discharged,
+			"evaluations":          len(r.Obls),
+			"distinct_nontrivial":  len(distinct),
+			"samples":              samples,
 			"obligations_per_rule": rules,
-			"packages":            len(r.P.Pkgs),
-			"functions_in_repo":   len(r.P.FuncList),
-			"anchor_functions":    fl,
-			"call_sites_examined": r.CallSites,
-			"floors":              floors,
-			"known_findings":      knownLines,
-			"notes":               r.Notes,
-			"sensitivity":         r.Sensitivity,
-			"renamed_anchors":     Renames,
-			"exhaustive":          true,
-			"checker_cmd":         fmt.Sprintf("bin/olricvet check %s %s", r.Property, r.Tier),
+			"packages":             len(r.P.Pkgs),
+			"functions_in_repo":    len(r.P.FuncList),
+			"anchor_functions":     fl,
+			"call_sites_examined":  r.CallSites,
+			"floors":               floors,
+			"known_findings":       knownLines,
+			"notes":                r.Notes,
+			"sensitivity":          r.Sensitivity,
+			"renamed_anchors":      Renames,
+			"normalised":           Normalised,
+			"exhaustive":           true,
+			"checker_cmd":          fmt.Sprintf("bin/olricvet check %s %s", r.Property, r.Tier),
 		},
 		"assumptions": append([]string{
 			"go/types and go/ssa (x/tools v0.29.0) model this code correctly",
